@@ -197,6 +197,12 @@ pub fn account_twin(env: &Env, a: &Address) -> Address {
     Address::try_from_val(env, &sc).unwrap()
 }
 
+/// the account address whose key is 32 zero bytes (GAAAA...AWHF)
+pub fn zero_account(env: &Env) -> Address {
+    let sc = ScVal::Address(ScAddress::Account(xdr::AccountId(xdr::PublicKey::PublicKeyTypeEd25519(xdr::Uint256([0u8; 32])))));
+    Address::try_from_val(env, &sc).unwrap()
+}
+
 impl Sim {
     pub fn new(ts: u64, seq: u32) -> Sim {
         let env = Env::new_with_config(EnvTestConfig {
